@@ -409,7 +409,10 @@ pub fn drive_cells(args: &Args) -> i32 {
         // empty shared strings at the first, some middle and the last index; cells refer to the others
         let nstr = nstr + 2;
         let strings: Vec<String> = (0..nstr)
-            .map(|i| if i == 0 || i + 1 == nstr || (i % 5 == 3) { String::new() } else { format!("str{}-{}", i, "x".repeat(i % 7)) })
+            // every sixth string is long: the 8-bit / 16-bit boundary of the character count (255, 256, 257) and beyond
+            .map(|i| if i == 0 || i + 1 == nstr || (i % 5 == 3) { String::new() }
+                 else if i % 6 == 1 { format!("long{}-{}", i, "y".repeat([255usize, 256, 257, 300, 1000][(i / 6) % 5] - 5 - i.to_string().len())) }
+                 else { format!("str{}-{}", i, "x".repeat(i % 7)) })
             .collect();
         let pick_str = |rng: &mut StdRng| loop {
             let i = rng.gen_range(0..nstr);
